@@ -5,8 +5,13 @@ Instances: N sets over items 1..M with integer weights, membership rows padded w
 (`n_sets_to_choose`, a PER-ROW [B,1] float tensor in the generator format).  Rewards are
 integer-valued floats (scale 1), so everything is exact.
 
-Two adapters for the same reason as FLP (a finished row can be stepped only N-K times):
-  MCP      K <= N-2, pad_steps = 1      MCPFull  K in {N-1, N}, pad_steps = 0
+One adapter for all quotas 1..N, pad_steps = 2.  Since the fix "FLP/MCP instances that reached
+their quota ignore further (padding) selections" a finished row accepts any action and keeps its
+selection; `done` is one flag per row ([B]).
+(FORMER behaviour: action_mask = ~chosen also for finished rows, every padding step added a set
+and raised the reward of the finished row whenever quotas differed inside a batch; `done` was a
+[B,B] tensor.  M_PadC04 and the batch stage keep watching this: rows with DIFFERENT quotas share
+every batch.  There used to be a second adapter MCPFull for K >= N-1.)
 """
 import random
 
@@ -47,18 +52,20 @@ class MCP(Adapter):
     name = "mcp"
     module = "MCP"
     has_checker = False
-    pad_steps = 1
+    pad_steps = 2
     properties = ("C02", "C03", "C04", "C05", "C08")
     monitor_props = {"Step": "C08", "Final": "C08"}
 
-    def quotas(self, n):
-        return range(1, n - 1)
+    def quotas(self, n, tier):
+        if tier == "quick" and n >= 5:
+            return (1, 2, 3)
+        return range(1, min(n, 5) + 1)          # every quota up to K = N (N = 7: K <= 5)
 
     def bases(self, tier, seed):
         rnd = random.Random(1000 + seed)
-        out = [dict(b) for b in HAND if b["N"] >= 4]
+        out = [dict(b) for b in HAND]
         if tier == "quick":
-            return out[:3] + [random_inst(rnd, 5, 6, 3)]
+            return out + [random_inst(rnd, 5, 6, 3)]
         for (n, m, width, cnt) in ((4, 5, 3, 4), (5, 6, 3, 4), (5, 7, 4, 3), (6, 7, 3, 3), (7, 8, 3, 1)):
             out += [random_inst(rnd, n, m, width) for _ in range(cnt)]
         return out
@@ -66,13 +73,13 @@ class MCP(Adapter):
     def family(self, tier, seed=0):
         insts = []
         for b in self.bases(tier, seed):
-            for k in self.quotas(b["N"]):
-                if k >= 1:
-                    insts.append(dict(b, K=k, grid=1))
+            for k in self.quotas(b["N"], tier):
+                insts.append(dict(b, K=k, grid=1))
         return with_ids(insts)
 
     def group_key(self, inst):
-        return (inst["N"], inst["M"], len(inst["mem"][0]))   # tensor shapes; quotas are mixed
+        # tensor shapes; quotas are mixed (K = N rows apart, as in flp.py: they are the slowest rows)
+        return (inst["N"], inst["M"], len(inst["mem"][0]), inst["K"] == inst["N"])
 
     def actions(self, inst):
         return list(range(inst["N"]))
@@ -106,19 +113,3 @@ class MCP(Adapter):
                 "chosen": [int(x) for x in td["chosen"][r].nonzero().flatten().tolist()],
                 "w": [exact_int(x, 1) for x in td["weights"][r].tolist()],
                 "mem": [[exact_int(x, 1) for x in row] for row in td["membership"][r].tolist()]}
-
-
-class MCPFull(MCP):
-    """boundary quotas K = N-1 and K = N"""
-    tag = "mcp_full"
-    pad_steps = 0
-
-    def quotas(self, n):
-        return (n - 1, n)
-
-    def bases(self, tier, seed):
-        rnd = random.Random(2000 + seed)
-        out = [dict(b) for b in HAND]
-        if tier == "quick":
-            return [out[3], out[0]]
-        return out + [random_inst(rnd, n, m, 3) for (n, m) in ((3, 4), (4, 5), (5, 6), (6, 7))]
